@@ -33,6 +33,16 @@ def check(rep, ctx):
                    "encoding that carries any other value must be written back)", floor=50,
                    necessary_because="UpdateRaftVoterResponse with current_leader=(0, 0, '', 0) is canonical with the tag present; a writer that "
                                      "takes (0, 0, '', 0) for the default re-encodes 23 bytes as 7")
+    R_L = rep.rule("C05-vii-call-local", "encoding uses only state created in the call: no buffer is allocated while the cached writer closures "
+                   "are built", floor=0,
+                   necessary_because="bytes left in a shared scratch buffer by a rejected encode are appended to the next encode of the class: "
+                                     "decode(b) re-encodes to something else than b")
+    from .streams import site_loc as _site_loc, stmt_at as _stmt_at
+    for side, cls_, site in W.bundle["factory"]["allocs"]:
+        where, fn_ = _site_loc(ctx, site)
+        rep.check(R_L, False, construct=fn_, stmt=_stmt_at(ctx, site),
+                  message=f"a scratch buffer is allocated while the cached {side} plan of {cls_} is built and shared by every later call", **where)
+    rep.count(R_L, 1, instance="factory-log")
     from .wire import writer_elision_constants
     for key, cls, plan in W.classes():
         if not plan["error"] and plan["writer"].get("flexible"):
@@ -96,7 +106,7 @@ def check(rep, ctx):
                         continue
                     fn = d.get("_codec", "?")
                     q, issues = (timeflow.read_side if side == "read" else timeflow.write_side)(d["conv"], bits, kind)
-                    issues = [i for i in issues if i[0] in ("T-gran", "T-float64", "T-trunc")]
+                    issues = [i for i in issues if i[0] in ("T-gran", "T-float64", "T-trunc", "T-epoch")]
                     if q is None:
                         rep.check(R_T, False, construct=fn, stmt=timeflow.show(d["conv"]), message="time conversion not understood",
                                   instance=f"{construct}|{side}")
